@@ -62,6 +62,49 @@ func blockReturnsError(b *ssa.BasicBlock) bool {
 	return false
 }
 
+// persistsAcrossLevels: v is an object the routine was handed (a parameter, the receiver, a free
+// variable, or a field loaded from one), not the result of a call made in this activation.
+func persistsAcrossLevels(v ssa.Value, depth int) bool {
+	if depth > 6 {
+		return false
+	}
+	switch x := v.(type) {
+	case *ssa.Parameter, *ssa.FreeVar, *ssa.Global:
+		return true
+	case *ssa.UnOp:
+		if x.Op == token.MUL {
+			return persistsAcrossLevels(x.X, depth+1)
+		}
+	case *ssa.FieldAddr:
+		return persistsAcrossLevels(x.X, depth+1)
+	case *ssa.Field:
+		return persistsAcrossLevels(x.X, depth+1)
+	case *ssa.Phi:
+		for _, e := range x.Edges {
+			if !persistsAcrossLevels(e, depth+1) {
+				return false
+			}
+		}
+		return len(x.Edges) > 0
+	case *ssa.Alloc:
+		// a spilled parameter: every store into it is of a persistent value
+		if x.Referrers() == nil {
+			return false
+		}
+		n := 0
+		for _, r := range *x.Referrers() {
+			if st, ok := r.(*ssa.Store); ok && st.Addr == ssa.Value(x) {
+				n++
+				if !persistsAcrossLevels(st.Val, depth+1) {
+					return false
+				}
+			}
+		}
+		return n > 0
+	}
+	return false
+}
+
 func (c *Ctx) checkNesting() {
 	run := c.mustFn("C01-NEST", "Zlisp.Run")
 	if run == nil {
@@ -218,6 +261,9 @@ func (c *Ctx) checkNesting() {
 				if !(goOn == st.Block() || goOn.Dominates(st.Block())) {
 					return
 				}
+				if fa, ok := st.Addr.(*ssa.FieldAddr); ok && site != nil && !persistsAcrossLevels(fa.X, 0) {
+					return
+				}
 				if site == nil || dominatesInstr(st, site) {
 					found = true
 				}
@@ -260,6 +306,13 @@ func (c *Ctx) checkNesting() {
 			}
 			name := countingHelper(call.Call.StaticCallee())
 			if name == "" {
+				return
+			}
+			// the counter must be the one the next level of the recursion sees: that of an interpreter the
+			// routine was given (gen.env, env), not of one it has just made (a duplicate made for this
+			// expansion starts from its parent's count, and the parent's is what the recursion goes on with)
+			if len(call.Call.Args) > 0 && !persistsAcrossLevels(call.Call.Args[0], 0) {
+				why = "the nesting is counted on an interpreter made in this very activation (" + shortStr(call.Call.Args[0].String(), 40) + "): the next level of the recursion starts from the uncounted parent"
 				return
 			}
 			ev, _ := errorValueOf(call)
@@ -755,4 +808,159 @@ func (c *Ctx) checkParserDepth() {
 	c.check(tested != nil && counted && guardsAll, "C01-DEPTH", "Parser.ParseExpression", "nesting depth counted against a bound", pe.Pos(),
 		"the expression parser counts its activations and returns an error beyond a bound, before it calls back into the parser",
 		"the parser recurses once per nesting level of the text with no bound ("+why+"): a text of a million opening parentheses is parsed until the Go stack limit, a fatal error that kills the host")
+}
+
+
+// checkNestPairing: the nesting counter is a resource: what counts one level in must count it out on
+// every way out of the routine, failing ones included -- the counter is not part of the control state
+// that a failed evaluation restores, and Clear does not touch it. A routine that calls a counting
+// helper (one that compares an integer field of the interpreter with a bound and increments it) has
+// either a deferred call of a routine that decrements the same field, made right after the successful
+// count, or a decrementing call on every path from the count to a return.
+func (c *Ctx) checkNestPairing(rule string) {
+	zl := c.named("Zlisp")
+	if zl == nil {
+		c.undecided(rule, "package", "interpreter type", token.NoPos, "Zlisp not found")
+		return
+	}
+	fieldOf := func(addr ssa.Value) *types.Var {
+		fa, ok := addr.(*ssa.FieldAddr)
+		if !ok {
+			return nil
+		}
+		fld := faField(fa)
+		if fld == nil {
+			return nil
+		}
+		if b, ok := fld.Type().Underlying().(*types.Basic); !ok || b.Info()&types.IsInteger == 0 {
+			return nil
+		}
+		if pt, ok := fa.X.Type().Underlying().(*types.Pointer); ok {
+			if nm, ok := pt.Elem().(*types.Named); ok && nm == zl {
+				return fld
+			}
+		}
+		return nil
+	}
+	// helpers: up counts a field (and can refuse), down un-counts it
+	up := map[*ssa.Function]*types.Var{}
+	down := map[*ssa.Function]*types.Var{}
+	for _, g := range c.zygoFuncs() {
+		if g.Parent() != nil || !isMethodOf(g, zl) || len(g.Blocks) > 6 {
+			continue
+		}
+		eachInstr(g, func(b *ssa.BasicBlock, i int, in ssa.Instruction) {
+			st, ok := in.(*ssa.Store)
+			if !ok {
+				return
+			}
+			fld := fieldOf(st.Addr)
+			bo, isBo := st.Val.(*ssa.BinOp)
+			if fld == nil || !isBo {
+				return
+			}
+			if u, ok := bo.X.(*ssa.UnOp); !ok || u.Op != token.MUL || fieldOf(u.X) != fld {
+				return
+			}
+			if k, ok := constIntOf(bo.Y); ok && k == 1 {
+				if bo.Op == token.ADD && errResultIndex(g.Signature) >= 0 {
+					up[g] = fld
+				}
+				if bo.Op == token.SUB {
+					down[g] = fld
+				}
+			}
+		})
+	}
+	n := 0
+	for _, f := range c.zygoFuncs() {
+		eachInstr(f, func(b *ssa.BasicBlock, i int, in ssa.Instruction) {
+			call, ok := in.(*ssa.Call)
+			if !ok {
+				return
+			}
+			fld, isUp := up[call.Call.StaticCallee()]
+			if !isUp || up[f] != nil {
+				return
+			}
+			n++
+			// the side on which the count succeeded
+			ev, _ := errorValueOf(call)
+			var okSide *ssa.BasicBlock
+			if ev != nil {
+				_, tests := errConsumed(ev, map[ssa.Value]bool{})
+				for _, iff := range tests {
+					cond, tb, fb := condBranch(iff.Block())
+					if bo, ok := cond.(*ssa.BinOp); ok {
+						okSide = fb
+						if bo.Op == token.EQL {
+							okSide = tb
+						}
+					}
+				}
+			}
+			if okSide == nil {
+				c.bad(rule, fnName(f), "nesting counted in is counted out", call.Pos(), "the result of the counting helper is not tested: a refused level goes on uncounted")
+				return
+			}
+			isDown := func(x ssa.Instruction) bool {
+				switch y := x.(type) {
+				case *ssa.Defer:
+					if g := y.Call.StaticCallee(); g != nil {
+						if down[g] == fld {
+							return true
+						}
+						// a deferred closure that calls the un-counting routine
+						for _, h := range withClosures(g) {
+							for dg, dfld := range down {
+								if dfld == fld && len(callsOf(h, dg)) > 0 {
+									return true
+								}
+							}
+						}
+					}
+					if mc, ok := y.Call.Value.(*ssa.MakeClosure); ok {
+						if g, ok := mc.Fn.(*ssa.Function); ok {
+							for dg, dfld := range down {
+								if dfld == fld && len(callsOf(g, dg)) > 0 {
+									return true
+								}
+							}
+						}
+					}
+				case *ssa.Call:
+					if g := y.Call.StaticCallee(); g != nil && down[g] == fld {
+						return true
+					}
+				}
+				return false
+			}
+			// every return reachable from the counted side without passing an un-count
+			leak := token.NoPos
+			reach := reachableAvoiding(okSide, func(x *ssa.BasicBlock) bool {
+				for _, y := range x.Instrs {
+					if isDown(y) {
+						return true
+					}
+				}
+				return false
+			})
+			for blk := range reach {
+				for _, y := range blk.Instrs {
+					if r, ok := y.(*ssa.Return); ok {
+						leak = r.Pos()
+						if leak == token.NoPos {
+							leak = call.Pos()
+						}
+					}
+				}
+			}
+			c.check(leak == token.NoPos, rule, fnName(f), "nesting counted in is counted out", call.Pos(),
+				"after a successful count every way out of the routine passes the un-counting routine (deferred, or called on each path)",
+				"a level of nesting is counted in and a return is reachable without counting it out ("+c.pos(leak)+"): the counter is not part of the restored control state, so every failed (or swallowed) nested evaluation leaves it one higher, until every evaluation is refused as nested too deep")
+		})
+	}
+	if n < 2 {
+		c.undecided(rule, "package", "counted routines", token.NoPos, fmt.Sprintf("only %d calls of a counting helper found (Run, the macro expansion and the include site confirmed by reading)", n))
+	}
 }
